@@ -429,6 +429,25 @@ public:
 
    virtual uint32 TemplatedTypeCode() const {return B_BOOL_TYPE;}
 
+   virtual status_t TemplatedUnflatten(DataUnflattener & unflat)
+   {
+      // Received bytes can hold any value, but copying anything other than 0 or 1 into a bool and then reading it is
+      // undefined behaviour, so we can't use our superclass's block-read here; instead we convert each item explicitly.
+      const uint32 numBytes = unflat.GetNumBytesAvailable();
+      if (numBytes % sizeof(bool)) return B_BAD_ARGUMENT;  // length must be an even multiple of item size, or something's wrong!
+
+      const uint32 numItems = numBytes / sizeof(bool);
+      _data.Clear();
+      MRETURN_ON_ERROR(_data.EnsureSize(numItems, true));
+      for (uint32 i=0; i<numItems; i++)
+      {
+         bool b = false;
+         for (uint32 j=0; j<sizeof(bool); j++) if (unflat.ReadByte() != 0) b = true;
+         _data[i] = b;
+      }
+      return unflat.GetStatus();
+   }
+
    virtual const char * GetFormatString() const {return "%i";}
 
    virtual AbstractDataArrayRef Clone() const;
